@@ -261,3 +261,19 @@ func Implies(a, b bool) bool { return !a || b }
 
 // EqBytes compares two byte slices without a branch.
 func EqBytes(a, b []byte) bool { return string(a) == string(b) }
+
+// StubCount returns how many times the named environment function (e.g.
+// "crypto/tls.Dial") was called on this path.  Engine only: natively the real
+// environment is in place and nothing is recorded.
+func StubCount(name string) int { return 0 }
+
+// StubArg returns argument arg of call number call of a recorded environment
+// function (engine only).
+func StubArg(name string, call, arg int) interface{} { return nil }
+
+// PoolHas reports whether the recorded certificate pool received exactly pem
+// (engine only).
+func PoolHas(pool interface{}, pem []byte) bool { return false }
+
+// Native reports whether the harness runs natively (real environment).
+func Native() bool { return true }
